@@ -630,8 +630,13 @@ def random_form(rng, big=False) -> dict:
                     if rng.random() < (cdens if k == "label" else cdens / 2):
                         c["cells"][(k, lang)] = marker("C", ci, k, lang)
             if not any(k == "label" for k, _ in c["cells"]):
-                lang = rng.choice([None] + langs)
-                c["cells"][("label", lang)] = marker("C", ci, "label", lang)
+                if rng.random() < 0.25:
+                    # an unlabelled choice (only a warning); half of them media-less too
+                    if rng.random() < 0.5:
+                        c["cells"] = {}
+                else:
+                    lang = rng.choice([None] + langs)
+                    c["cells"][("label", lang)] = marker("C", ci, "label", lang)
             choices.append(c)
             ci += 1
     colon_ok = ":" in style and "::" not in style
@@ -760,3 +765,28 @@ def search_family():
                             if dl:
                                 form["dl_setting"] = dl
                             yield form
+
+
+def unlabelled_family():
+    """Directed family around the numbering of itext ids of choices (`<list>-<idx>` must be the position in the full
+    list everywhere): a list of 4 choices, each ∈ {labelled (unsuffixed), labelled fr, fr image + label, nothing at all,
+    fr image only}, at least one with nothing and the list itext-bearing; ordinary or search() select."""
+    shapes = {
+        "u": lambda i: {("label", None): marker("C", i, "label", None)},
+        "f": lambda i: {("label", "fr"): marker("C", i, "label", "fr")},
+        "um": lambda i: {("label", None): marker("C", i, "label", None), ("image", "fr"): marker("C", i, "image", "fr")},
+        "0": lambda i: {},
+        "m": lambda i: {("audio", "fr"): marker("C", i, "audio", "fr")},
+    }
+    names = list(shapes)
+    import itertools as it
+    for combo in it.product(names, repeat=4):
+        if "0" not in combo or not any(x in ("f", "um", "m") for x in combo):
+            continue
+        for search in (False, True):
+            e = {"etype": "sel", "name": "q0", "parent": None, "list": "l0", "seltype": "select_one",
+                 "cells": {("label", None): "QL0"}}
+            if search:
+                e["appearance"] = "search('crops')"
+            choices = [{"list": "l0", "name": f"o{i}", "cells": shapes[sh](i)} for i, sh in enumerate(combo)]
+            yield {"style": "::", "elems": [e], "choices": choices}
